@@ -198,3 +198,90 @@ class CommonAxis(Contract):
 
     def canaries(self, S, case, env, result):
         yield "result-is-empty", S.n(result.values) == 0
+
+
+class UnionLabelPrecision(Contract):
+    """BOUNDED STAND-IN ONLY (never counted as proved).  Labels of MIXED integer / float kinds: Axis.union / intersection, align
+    and a + b must carry every input label EXACTLY -- integer labels beyond 2**24 (what a single-precision cast destroys)
+    and beyond 2**31 (what a 32-bit integer cast destroys) next to float labels, resp. next to unsigned labels -- and each
+    array must keep its values at its own labels.  The verifier's labels are mathematical numbers; the width of the type
+    a label passes through exists only natively.  [C06, C04]"""
+    target = "dimarray.core.axes:_check_axes_merge"
+    props = ("C06", "C04")
+    native_only = True
+
+    def cases(self, tier):
+        for op in ("union", "intersection", "align-outer", "add"):
+            for mix in ("int64|float", "float|int64", "int64|uint8"):
+                yield {"name": "%s-%s" % (op, mix), "op": op, "mix": mix}
+
+    def setup(self, S, case):
+        La, Lb = S.array1d("la", "i"), S.array1d("lb", "i")
+        assume_order(S, La, "unique")
+        assume_order(S, Lb, "unique")
+        S.assume(S.n(La) >= 1, "non-empty")
+        S.assume(S.n(Lb) >= 1, "non-empty")
+        return {"La": La, "Lb": Lb, "off": S.int("off")}
+
+    def _labels(self, env):
+        import numpy as np
+        mix = env["case"]["mix"]
+        base = [2 ** 24 + 1, 2 ** 31 + 5, 2 ** 40 + 3][int(env["off"]) % 3]
+        big = (np.abs(np.asarray(env["La"], dtype=np.int64)) * 2 + base).astype(np.int64)          # distinct, odd offsets beyond the width
+        small = np.asarray(env["Lb"], dtype=np.int64)
+        if mix == "int64|float":
+            return big, small.astype(float) + 0.5
+        if mix == "float|int64":
+            return small.astype(float) + 0.5, big
+        return big, (np.abs(small) % 200).astype(np.uint8)
+
+    def call(self, fn, env):
+        import numpy as np
+        S, case = env["S"], env["case"]
+        la, lb = self._labels(env)
+        if len(set(la.tolist())) != len(la) or len(set(lb.tolist())) != len(lb):
+            raise S.PreconditionNotMet() if hasattr(S, "PreconditionNotMet") else ValueError("labels not distinct")
+        da = S.da
+        a = da.DimArray(np.arange(len(la), dtype=float) + 1, axes=[("x", la)])
+        b = da.DimArray(np.arange(len(lb), dtype=float) + 100, axes=[("x", lb)])
+        env.update({"a": a, "b": b, "la": la, "lb": lb})
+        op = case["op"]
+        if op == "union":
+            return da.Axis(la, "x").union(da.Axis(lb, "x"))
+        if op == "intersection":
+            return da.Axis(la, "x").intersection(da.Axis(np.concatenate([lb, la[:1].astype(lb.dtype) if lb.dtype.kind == "f" else la[:1]]) if lb.dtype.kind != "u" else lb, "x"))
+        if op == "align-outer":
+            return da.align([a, b])
+        return a + b
+
+    def raises(self, S, case, env):
+        return {ValueError: (False, True)}        # (a family member whose derived labels collide is skipped)
+
+    def post(self, S, case, env, result):
+        import numpy as np
+        from fractions import Fraction
+        op = case["op"]
+        la, lb = env["la"], env["lb"]
+        exact = lambda v: Fraction(float(v)) if isinstance(v, (float, np.floating)) else Fraction(int(v))
+        want = {exact(v) for v in la} | {exact(v) for v in lb}
+        if op == "union":
+            got = [exact(v) for v in result.values]
+            yield "every-input-label-exactly-once-nothing-invented", sorted(got) == sorted(want)
+        elif op == "intersection":
+            got = {exact(v) for v in result.values}
+            yield "only-common-labels-each-exact", got <= {exact(v) for v in la} and all(g in {exact(v) for v in la} for g in got)
+        elif op == "align-outer":
+            ra, rb = result
+            yield "common-axis-holds-every-label-exactly", sorted(exact(v) for v in ra.axes[0].values) == sorted(want) and \
+                [exact(v) for v in ra.axes[0].values] == [exact(v) for v in rb.axes[0].values]
+            pos = {exact(v): i for i, v in enumerate(ra.axes[0].values)}
+            yield "each-array-keeps-its-values-at-its-labels", all(ra.values[pos[exact(v)]] == env["a"].values[i] for i, v in enumerate(la) if exact(v) in pos) and \
+                all(rb.values[pos[exact(v)]] == env["b"].values[i] for i, v in enumerate(lb) if exact(v) in pos) and len(pos) == len(want)
+        else:
+            yield "result-axis-holds-every-label-exactly", sorted(exact(v) for v in result.axes[0].values) == sorted(want)
+            common = {exact(v) for v in la} & {exact(v) for v in lb}
+            pos = {exact(v): i for i, v in enumerate(result.axes[0].values)}
+            va = {exact(v): env["a"].values[i] for i, v in enumerate(la)}
+            vb = {exact(v): env["b"].values[i] for i, v in enumerate(lb)}
+            yield "value-where-both-define-the-label-nan-elsewhere", len(pos) == len(want) and all(
+                (result.values[pos[l]] == va[l] + vb[l]) if l in common else np.isnan(result.values[pos[l]]) for l in want if l in pos)
